@@ -199,7 +199,38 @@ def global_writes(repo: Repo, modules: t.Iterable[Module] | None = None) -> list
             d = _classify_receiver(repo, m, f, fn.value, scope(f), mg)
             if d:
                 out.append(GWrite(f, m, node, d, "mutator-call", None))
+        # process-wide objects handed to an in-place helper (a module-level function that mutates that parameter)
+        for node in m.of_type(ast.Call):
+            cn = call_name(node)
+            if not cn or not (node.args or node.keywords):
+                continue
+            r = repo.resolve_name(m, cn)
+            if r is None or r[1] not in r[0].funcs or "." in r[1]:
+                continue
+            callee = r[0].funcs[r[1]].node
+            mut = _mutated_params_cached(callee)
+            if not mut:
+                continue
+            params = [a.arg for a in callee.args.posonlyargs + callee.args.args]
+            f = m.enclosing_func(node)
+            pairs = [(params[i], a) for i, a in enumerate(node.args) if i < len(params) and not isinstance(a, ast.Starred)]
+            pairs += [(k.arg, k.value) for k in node.keywords if k.arg]
+            for pname, a in pairs:
+                if pname in mut:
+                    d = _classify_receiver(repo, m, f, a, scope(f), mg)
+                    if d:
+                        out.append(GWrite(f, m, node, d, f"in-place helper {cn}({pname}=...)", None))
     return out
+
+
+_mp_cache: dict[int, set[str]] = {}
+
+
+def _mutated_params_cached(fn: ast.FunctionDef | ast.AsyncFunctionDef) -> set[str]:
+    k = id(fn)
+    if k not in _mp_cache:
+        _mp_cache[k] = mutated_params(fn)
+    return _mp_cache[k]
 
 
 def describe(w: GWrite) -> str:
